@@ -245,8 +245,9 @@ def run(chk, repo, tier):
     from .C07ranges import rule_R4
     rule_R4(chk, repo)
     rule_R5(chk, repo)
-    from .C07charges import rule_R6
+    from .C07charges import rule_R6, rule_R8
     rule_R6(chk, repo)
+    rule_R8(chk, repo)
     from . import support
     support.chain_compiler_rules(chk, repo, 'C07.R7')
     chk.undecided += ['operator equality of the optimised and explicit construction', 'unitarity of the gauge matrices',
